@@ -293,13 +293,14 @@ func init() {
 			return err
 		})
 		if open != "ok" {
-			out := fmt.Sprintf("open=%s rows=0 nexts=0 err=- calls=%d recs=-", open, src.calls)
+			out := fmt.Sprintf("open=%s rows=0 nexts=0 err=- recs=- calls=%d", open, src.calls)
 			if wantTrace {
 				out += " trace=" + compressTrace(src.trace)
 			}
 			return out
 		}
 		var recs []string
+		cols := adapter.Columns(ns)
 		nexts := 0
 		rows := rd.Rows()
 		limit := int(rows) + 3
@@ -321,7 +322,11 @@ func init() {
 				nexts++
 				rec := z.NewRec()
 				rd.Scan(rec)
-				recs = append(recs, adapter.Show(reflect.ValueOf(rec).Elem(), ns))
+				var pr []string
+				for _, c := range cols {
+					pr = append(pr, adapter.Project(reflect.ValueOf(rec).Elem(), c))
+				}
+				recs = append(recs, strings.Join(pr, "|"))
 			}
 			if rd.Error() != nil {
 				status = "err"
@@ -331,7 +336,7 @@ func init() {
 		if len(recs) > 0 {
 			rs = strings.Join(recs, ";")
 		}
-		out := fmt.Sprintf("open=ok rows=%d nexts=%d err=%s calls=%d recs=%s", rows, nexts, status, src.calls, rs)
+		out := fmt.Sprintf("open=ok rows=%d nexts=%d err=%s recs=%s calls=%d", rows, nexts, status, rs, src.calls)
 		if wantTrace {
 			out += " trace=" + compressTrace(src.trace)
 		}
